@@ -115,17 +115,65 @@ def notStr : PyAst → Bool
 * an index *expression* is not a bare string literal (it would be read back as a column name);
 * a rendered server default is not the literal `None`;
 * `create_table` (column and constraint lists) is outside `evalCall`. -/
+def sdOk (a : Alter) : Bool :=
+  match a.serverDefault with
+  | some (some d) => !isPyNone d
+  | _ => true
+
 def evalOk : Op → Bool
   | .createTable _ _ _ _ _ _ _ => false
   | .addColumn _ _ col => kwFresh colKnown col.kwargs
-  | .alterColumn a => match a.serverDefault with
-    | some (some d) => !isPyNone d
-    | _ => true
+  | .alterColumn a => sdOk a
   | .createIndex _ _ _ elems _ kws _ =>
     elems.all (fun e => match e with | .col _ => true | .expr e => notStr e) &&
       kwFresh [S "unique", S "schema", S "if_not_exists"] kws
   | .dropIndex _ _ _ kws _ => kwFresh [S "table_name", S "schema", S "if_exists"] kws
   | .createUnique _ _ _ _ _ _ kws => kwFresh [S "deferrable", S "initially", S "schema"] kws
   | _ => true
+
+/-! ## evaluation check on the implementation's text (decidable form run by the driver) -/
+
+def tableOf : Op → Str
+  | .createTable n _ _ _ _ _ _ => n
+  | .dropTable n _ _ => n
+  | .addColumn t _ _ => t
+  | .dropColumn t _ _ => t
+  | .alterColumn a => a.table
+  | .createIndex _ t _ _ _ _ _ => t
+  | .dropIndex _ t _ _ _ => t
+  | .createUnique _ t _ _ _ _ _ => t
+  | .createFK _ t _ _ _ _ => t
+  | .dropConstraint _ t _ _ => t
+  | .createTableComment t _ _ _ => t
+  | .dropTableComment t _ _ => t
+
+/-- parse the implementation's text of one operation, evaluate the call, and compare the operation it
+builds with `normalize o` (operations are compared through their canonical rendering) -/
+def evalAgrees (ec : ECtx) (parsed : PyAst) (o : Op) : Bool :=
+  match evalCall ec parsed with
+  | some o' => pp ec.c.isP (canon (renderOp ec.c o')) == pp ec.c.isP (canon (renderOp ec.c (normalize ec o)))
+  | none => false
+
+def evalDenotes (ec : ECtx) (impl : List Char) (o : Op) : Bool :=
+  match parse impl with
+  | some e => evalAgrees ec e o
+  | none => false
+
+/-- the statements of one rendered top-level operation, evaluated one by one; `(holds, checked)`.
+Operations outside `evalOk` (`create_table`, shadowing keyword names) are skipped. -/
+def evalTop (c : Ctx) (asBatch : Bool) (impl : List Char) (t : Top) : Bool × Nat :=
+  match t with
+  | .single o =>
+    if evalOk o then (evalDenotes { c := { c with batch := false }, table := [], schema := none } impl o, 1) else (true, 0)
+  | .modify table schema ops =>
+    if ops.isEmpty then (true, 0) else
+    match parseStmts (ops.length + 2) impl with
+    | none => (false, 0)
+    | some asts =>
+      let ec : ECtx := { c := { c with batch := asBatch }, table := table, schema := schema }
+      let body := if asBatch then asts.drop 1 else asts
+      if body.length != ops.length then (false, 0) else
+      let rs := (body.zip ops).filter (fun p => evalOk p.2)
+      (rs.all (fun p => evalAgrees ec p.1 p.2), rs.length)
 
 end Spec.Render
